@@ -28,6 +28,8 @@ ASSUMPTIONS = [
     "comment-only and blank lines between statements are not constrained for logical lines (rope treats them as their own lines)",
 ]
 BUDGET = {"quick": (4800, 240), "thorough": (120000, 2700)}
+# thorough tier: rope modules instrumented for the coverage-guided (atheris) stage, see vlib/fuzzworker.py
+FUZZ_MODULES = ["rope.base.codeanalyze", "rope.base.simplify", "rope.base.worder"]
 
 
 def strategy(tier):
